@@ -929,10 +929,23 @@ func c11covered(c *Ctx) {
 		if f == nil || f.Blocks == nil {
 			continue
 		}
+		isRemove := func(cc *ssa.CallCommon) bool { return cc.IsInvoke() && cc.Method.Name() == "RemoveAll" }
 		removes := callsInBodyDeep(f, func(cc *ssa.CallCommon) bool {
-			return cc.IsInvoke() && cc.Method.Name() == "RemoveAll"
+			if isRemove(cc) {
+				return true
+			}
+			// through a helper that is analysed in place
+			if cal := cc.StaticCallee(); cal != nil && cal.Pkg == f.Pkg && !baselineFuncs[cal.String()] && cal.Blocks != nil {
+				return callsInBodyDeep(cal, isRemove)
+			}
+			return false
 		})
 		if !removes {
+			continue
+		}
+		if !fo.Exported() && !baselineFuncs[f.String()] {
+			// a helper introduced after the pinned tree (e.g. the removal extracted from Flush): analysed in place at its
+			// call sites, where the registration around it is visible
 			continue
 		}
 		n++
